@@ -368,7 +368,7 @@ func reuseUnit() harness.Unit {
 var Prop = &harness.Prop{
 	ID:          "C11",
 	Level:       "exploration",
-	Rule:        "full product of 3 keys x 3 IV settings (default zero, pattern, all-ones via SetIV) x every plaintext length of the tier x tail patterns (position-dependent, and last 1/2/v bytes equal to v for v in {pad byte, 1, 2, 16, pad-1}) x 4 modes x spare capacity {0,1,16,64}; ciphertext compared with crypto/cipher's mode over the independent SM4 on the PKCS#7-padded input; the STANDARD ciphertext is decrypted by the helper; inputs, key, IV and spare capacity are canary-checked. Cross-helper call histories: every sequence of length 4 (thorough 5) over {SetIV(iv1), SetIV(iv2), Sm4Ecb, Sm4Cbc, Sm4CFB, Sm4OFB, GCMEncrypt with a 12- and a 16-byte nonce, GCMDecrypt} in one process: each mode helper must use the IV set last by SetIV and each GCM call must equal standard GCM, whatever ran before. A case is distinct/non-trivial per (iv, length, tail, spare, mode) or per history. Fresh-process unit: every sequence of one or two helper calls over mode x {zero key, example key} x direction, default IV or SetIV first, each in a new process.",
+	Rule:        "full product of 3 keys x 3 IV settings (default zero, pattern, all-ones via SetIV) x every plaintext length of the tier x tail patterns (position-dependent, and last 1/2/v bytes equal to v for v in {pad byte, 1, 2, 16, pad-1}) x 4 modes x spare capacity {0,1,16,64}; ciphertext compared with crypto/cipher's mode over the independent SM4 on the PKCS#7-padded input; the STANDARD ciphertext is decrypted by the helper; inputs, key, IV and spare capacity are canary-checked. Cross-helper call histories: every sequence of length 4 (thorough 5) over {SetIV(iv1), SetIV(iv2), Sm4Ecb, Sm4Cbc, Sm4CFB, Sm4OFB, GCMEncrypt with a 12- and a 16-byte nonce, GCMDecrypt} in one process: each mode helper must use the IV set last by SetIV and each GCM call must equal standard GCM, whatever ran before. A case is distinct/non-trivial per (iv, length, tail, spare, mode) or per history. Fresh-process unit: every sequence of one or two helper calls over mode x {zero key, example key} x direction, default IV or SetIV first, each in a new process. After every refused SetIV (5 lengths, non-zero content) each mode still runs under the IV accepted before.",
 	Assumptions: []string{"refsm4 correct (anchored on GM/T 0002 vectors); Go's crypto/cipher CBC/CFB/OFB are the standard definitions (CFB = full-block CFB-128)"},
 	Bounds: func(tier string) string {
 		if tier == "thorough" {
